@@ -102,6 +102,8 @@ def h_stage1(sx):
     sx.check(w.escaped is None, "run.no-exception-escapes-run_model", detail=lambda m: repr(w.escaped))
     if w.escaped is not None:
         return w.observable()
+    sx.check(not any(e[0] == "unrendered-placeholder" for e in w.events), "C02.row-steps-carry-the-row-values",
+             detail=lambda m: [list(map(str, e)) for e in w.events if e[0] == "unrendered-placeholder"])
 
     ex = None
     if not faulted and not w.opts.get("nested_steps"):
@@ -160,6 +162,8 @@ def h_stage1(sx):
         sx.check(real2 == ex2.steps, "C02.rerun.step-statuses==RunSpec(OUT2)",
                  detail=lambda m: {"real": real2, "expected": ex2.steps, "first_run": obs["steps"], "flags": fl(m)})
         sx.check(w.verdict == ex2.wrong, "C02.rerun.verdict==RunSpec(OUT2)")
+        sx.check(not any(e[0] == "unrendered-placeholder" for e in w.events), "C02.row-steps-carry-the-row-values",
+                 detail=lambda m: [list(map(str, e)) for e in w.events if e[0] == "unrendered-placeholder"])
         if "rollup" in checks:
             _check_rollup(sx, w, flags, prefix="C03.rerun.")
         obs["second"] = w.observable()
